@@ -3,8 +3,13 @@
 
   Models: `Model/GC.lean` (logical store + maintenance operations), `Model/Reader.lean` (a reader's lookup /
   iteration as a small-step program interleaved with a repacker's file-system actions).
-  Constants and the recorded file-system programs of the real `repack` / `pack_loose_objects` /
-  `garbage_collect` come from `Gen/GC.lean` (regenerated from the source on every run).
+  Constants, the behaviour switches (does `get_raw` look at the packs again after a loose miss? does `__iter__` rescan
+  after the loose listing? is an object's mtime the most recent over its copies? does `_complete_pack` refresh an
+  existing pack's mtime?) and the recorded file-system programs of the real `repack` / `pack_loose_objects` /
+  `garbage_collect` come from `Gen/GC.lean`, regenerated from the source on every run.
+
+  The positive theorems are about the code AFTER the C10 fix series; the behaviour before it is kept as `decide`d
+  regression witnesses on the old variants (`…_old_code`).
 -/
 import DulwichModel.Model.GC
 import DulwichModel.Model.Reader
@@ -14,12 +19,25 @@ import DulwichModel.Lemmas.Reader
 namespace Dulwich.Props.C10
 open Dulwich Dulwich.Reader
 
+/-! ## What the source does now (translator output) -/
+
+/-- The source has the repaired behaviours the theorems below are about.  (Against a tree without the fix series this is
+the obligation that stops compiling.) -/
+theorem source_has_repaired_behaviour :
+    Gen.GC.getRawReprobesPacks = true ∧ Gen.GC.containsReprobesPacks = true ∧ Gen.GC.iterRescansAfterLoose = true ∧
+    GC.Variant.current = GC.Variant.fixed ∧
+    Gen.GC.getRawProbeOrder = [0, 1, 2, 0] ∧ Gen.GC.containsProbeOrder = [0, 1, 2, 0] := by
+  decide
+
+/-- the retry bound found in the source is enough for the theorems below -/
+theorem rescan_attempts_sufficient : 3 ≤ Gen.GC.maxPackRescanAttempts := by decide
+
 /-! ## Logical half: maintenance never loses reachable objects
 
 `GC.Reach s G roots x` (defined in `Lemmas/GC.lean`): `x` is a root (value of a ref or HEAD), or a child — tree/parents of
 a commit, entry of a tree, target of a tag, as given by `G` — of a reachable object that is present in store `s`.
 All theorems hold for every store (any mix of loose objects, packs with duplicates, alternates), every graph `G`,
-every set of roots, every clock and mtimes. -/
+every set of roots, every clock and mtimes; those that do not mention mtimes hold for both variants of the code. -/
 
 /-- The `reachable` set / `pending` deque worklist of `find_reachable_objects` computes exactly the reachable set
 (closure lemma), for every graph — whenever it returns. -/
@@ -34,8 +52,8 @@ theorem reach_worklist_terminates (s : GC.Store) (G : GC.Id → List GC.Id) (roo
   GC.findReachable_total s G roots fuel hf
 
 /-- every maintenance operation is total (given that much fuel for its reachability walk) -/
-theorem maintenance_total (s : GC.Store) (G : GC.Id → List GC.Id) (roots : List GC.Id) (fuel : Nat) (op : GC.Op)
-    (hf : (roots ++ s.allIds.flatMap G).length ≤ fuel) : (GC.apply G roots fuel op s).isSome = true := by
+theorem maintenance_total (v : GC.Variant) (s : GC.Store) (G : GC.Id → List GC.Id) (roots : List GC.Id) (fuel : Nat)
+    (op : GC.Op) (hf : (roots ++ s.allIds.flatMap G).length ≤ fuel) : (GC.apply v G roots fuel op s).isSome = true := by
   have := GC.findReachable_total s G roots fuel hf
   cases op <;> simp [GC.apply, this]
 
@@ -43,76 +61,166 @@ theorem maintenance_total (s : GC.Store) (G : GC.Id → List GC.Id) (roots : Lis
 after any sequence (any order, any number of times) of pack_loose_objects / repack / prune_unreachable_objects /
 garbage_collect (prune or not, any grace period incl. 0 and None) / pack_refs / temp-file prune.
 (Content is a function of the id in the model; the oracle compares type and bytes on the real code.) -/
-theorem gc_preserves_reachable (G : GC.Id → List GC.Id) (roots : List GC.Id) (fuel : Nat) (ops : List GC.Op)
-    (s s' : GC.Store) (h : GC.applyAll G roots fuel ops s = some s') (x : GC.Id)
+theorem gc_preserves_reachable (v : GC.Variant) (G : GC.Id → List GC.Id) (roots : List GC.Id) (fuel : Nat)
+    (ops : List GC.Op) (s s' : GC.Store) (h : GC.applyAll v G roots fuel ops s = some s') (x : GC.Id)
     (hr : GC.Reach s G roots x) (hx : s.has x = true) : s'.has x = true :=
   GC.applyAll_preserves_reachable h hr hx
 
-/-- Whatever one operation makes disappear was unreachable, and the operation was a prune / a gc with prune=True whose
-grace period the object's mtime (as `get_object_mtime` reports it) had outlived (`t + grace ≤ now`; no condition when the
-grace period is None). -/
+/-- Whatever one operation of the current code makes disappear was unreachable, the operation was a prune / a gc with
+prune=True, and the object was older than the grace period in the property's sense: it had a local copy and EVERY copy of
+it — each loose file, each pack containing it — was last written at least `grace` seconds before `now`
+(`GC.OldEnough`; no condition when the grace period is None). -/
 theorem only_old_unreachable_removed (G : GC.Id → List GC.Id) (roots : List GC.Id) (fuel : Nat) (op : GC.Op)
-    (s s' : GC.Store) (h : GC.apply G roots fuel op s = some s') (x : GC.Id)
+    (s s' : GC.Store) (h : GC.apply GC.Variant.current G roots fuel op s = some s') (x : GC.Id)
     (hx : s.has x = true) (hgone : s'.has x = false) :
     ¬ GC.Reach s G roots x ∧
     ((∃ grace now, op = .prune grace now ∧ GC.OldEnough s grace now x) ∨
      (∃ grace now, op = .gc true grace now ∧ GC.OldEnough s grace now x)) :=
-  GC.apply_only_old_unreachable_removed h hx hgone
+  GC.apply_only_old_unreachable_removed_all_copies (by decide) h hx hgone
 
 /-- maintenance never invents or resurrects an object -/
-theorem maintenance_adds_nothing (G : GC.Id → List GC.Id) (roots : List GC.Id) (fuel : Nat) (op : GC.Op)
-    (s s' : GC.Store) (h : GC.apply G roots fuel op s = some s') (x : GC.Id) (hx : s'.has x = true) :
+theorem maintenance_adds_nothing (v : GC.Variant) (G : GC.Id → List GC.Id) (roots : List GC.Id) (fuel : Nat)
+    (op : GC.Op) (s s' : GC.Store) (h : GC.apply v G roots fuel op s = some s') (x : GC.Id) (hx : s'.has x = true) :
     s.has x = true :=
   GC.apply_no_new_objects h hx
 
-/-- `OldEnough` uses the mtime of ONE copy (the loose file, else the first pack in cache order).  Negation witness of the
-stronger reading "every copy is older than the grace period": object 9 is unreachable, its loose copy is 7200 s old, its
-packed copy 1800 s; `gc(grace 3600)` removes it from the store altogether. -/
-theorem younger_copy_pruned_counterexample :
+/-- Regression witness (code before the series: `get_object_mtime` = the loose file's mtime, else the first pack's):
+object 9 is unreachable, its loose copy is 7200 s old, its packed copy 1800 s; `gc(grace 3600)` removed it from the store
+altogether.  The repaired code keeps it. -/
+theorem younger_copy_pruned_old_code :
     let s : GC.Store := { loose := [(9, 2800)], packs := [{ ids := [1, 2], mtime := 2800 }, { ids := [9], mtime := 8200 }],
                           alts := [] }
     let G : GC.Id → List GC.Id := fun x => if x = 1 then [2] else []
-    (GC.apply G [1] 10 (.gc true (some 3600) 10000) s).map (fun s' => (s'.has 1, s'.has 2, s'.has 9)) =
-      some (true, true, false) ∧ 10000 < 8200 + 3600 := by
+    (GC.apply GC.Variant.old G [1] 10 (.gc true (some 3600) 10000) s).map (fun s' => (s'.has 1, s'.has 2, s'.has 9)) =
+      some (true, true, false) ∧ 10000 < 8200 + 3600 ∧
+    (GC.apply GC.Variant.fixed G [1] 10 (.gc true (some 3600) 10000) s).map (fun s' => (s'.has 1, s'.has 2, s'.has 9)) =
+      some (true, true, true) := by
   decide
 
-/-- A second way in which "older than the grace period" fails for the object as a whole: object 9 sits in an old pack
-`{9}`; it is re-added (fresh loose copy, 10 s old); `pack_loose_objects` finds that the pack it would write already exists
-and only deletes the loose copy (`installPack` keeps the old pack with its old mtime); `gc(grace 3600)` then removes
-object 9, ten seconds after it was written. -/
-theorem fresh_copy_dropped_counterexample :
+/-- Regression witness (code before the series: `_complete_pack` left an existing identical pack's mtime alone): object 9
+sits in an old pack `{9}`; it is re-added (fresh loose copy, 10 s old); `pack_loose_objects` finds that the pack it would
+write already exists and only deletes the loose copy; `gc(grace 3600)` then removed object 9, ten seconds after it was
+written.  The repaired code refreshes the pack's mtime and keeps it. -/
+theorem fresh_copy_dropped_old_code :
     let s : GC.Store := { loose := [(9, 9990)], packs := [{ ids := [1, 2], mtime := 100 }, { ids := [9], mtime := 100 }],
                           alts := [] }
     let G : GC.Id → List GC.Id := fun x => if x = 1 then [2] else []
-    (GC.applyAll G [1] 10 [.packLoose 10000, .gc true (some 3600) 10000] s).map (fun s' => (s'.has 1, s'.has 2, s'.has 9)) =
-      some (true, true, false) ∧ 10000 < 9990 + 3600 := by
+    (GC.applyAll GC.Variant.old G [1] 10 [.packLoose 10000, .gc true (some 3600) 10000] s).map
+        (fun s' => (s'.has 1, s'.has 2, s'.has 9)) = some (true, true, false) ∧ 10000 < 9990 + 3600 ∧
+    (GC.applyAll GC.Variant.fixed G [1] 10 [.packLoose 10000, .gc true (some 3600) 10000] s).map
+        (fun s' => (s'.has 1, s'.has 2, s'.has 9)) = some (true, true, true) := by
   decide
 
 /-- non-vacuity of the hypotheses of the logical theorems: a store with loose, packed, duplicated and alternate objects;
 gc with the default grace period (from the source) keeps the closure of the root and the young unreachable object, and
-removes the old unreachable one. -/
+removes the old unreachable ones — all of whose copies are old. -/
 example :
     let s : GC.Store := { loose := [(3, 100), (7, 100), (8, 5000000)], packs := [{ ids := [1, 2, 3], mtime := 100 },
                           { ids := [3, 6], mtime := 100 }], alts := [4] }
     let G : GC.Id → List GC.Id := fun x => if x = 1 then [2, 3] else if x = 3 then [4, 5] else []
     GC.findReachable s G [1] 20 = some [1, 2, 3, 4, 5] ∧
-    (GC.apply G [1] 20 (.gc true GC.defaultGrace 5000100) s).map
+    (GC.apply GC.Variant.current G [1] 20 (.gc true GC.defaultGrace 5000100) s).map
         (fun s' => ([1, 2, 3, 4, 5, 6, 7, 8].map s'.has, s'.loose, s'.packs.map (·.ids))) =
-      some ([true, true, true, true, false, false, false, true], [], [[8, 1, 2, 3]]) := by
+      some ([true, true, true, true, false, false, false, true], [], [[8, 1, 2, 3]]) ∧
+    s.mtimes 6 = [100] ∧ s.mtimes 7 = [100] := by
   decide
 
-/-! ## Concurrent half: concrete witnesses (the general theorems follow below) -/
+/-! ## Concurrent half -/
 
 /-- is `x` readable in file-system state `f` (loose file present, or in a pack that a directory scan would show) -/
 def present (ids : Name → List Id) (f : FS) (x : Id) : Bool :=
   f.loose.contains x || f.visible.any (fun p => (ids p).contains x)
+
+/-- For every interleaving (any schedule) of ONE repacker whose program has the safe shape (`checkProgram`: the new pack
+`pstar` is installed — data, then index — before any pack file is removed and before any loose object of `prot` is
+deleted, and is never removed; `started`: `pstar` was already there) with ANY number of readers, each doing `store[x]`
+or `x in store` as the source does it now (with the second look at the packs), from any cache state (empty, stale,
+already loaded), for an object of `prot` that exists at the start — in a complete pack OR as a loose file — and is in
+`pstar`: no reader ever reports "missing".  Objects that move from loose to packed are included.  The number of passes
+is the constant from the source. -/
+theorem reader_finds_persistent_object (pstar : Name) (prot : List Id) (started : Bool) (prog : List Act)
+    (hprog : checkProgram pstar prot started started prog = true) (f0 : FS)
+    (hstart : started = true → f0.complete pstar = true) (readers : List (Cfg × RState))
+    (hreaders : ∀ cr ∈ readers, cr.1.maxAttempts = Gen.GC.maxPackRescanAttempts ∧
+        cr.1.reprobe = (if cr.1.needData then Gen.GC.getRawReprobesPacks else Gen.GC.containsReprobesPacks) ∧
+        cr.1.x ∈ cr.1.ids pstar ∧ cr.1.x ∈ prot ∧
+        ((∃ p, f0.complete p = true ∧ cr.1.x ∈ cr.1.ids p) ∨ cr.1.x ∈ f0.loose) ∧
+        (∃ cache idxL dataL, cr.2 = RState.init cache idxL dataL))
+    (sched : List (Option Nat)) :
+    ∀ cr ∈ (Sys.exec { fs := f0, prog := prog, readers := readers } sched).readers,
+      ∀ b, cr.2.phase = Phase.done b → b = true := by
+  apply sys_readers_never_miss pstar prot started prog hprog f0 hstart readers
+  intro cr hcr
+  obtain ⟨hN, hre, h⟩ := hreaders cr hcr
+  refine ⟨by rw [hN]; exact rescan_attempts_sufficient, ?_, h⟩
+  rw [hre]
+  have h1 : Gen.GC.getRawReprobesPacks = true := source_has_repaired_behaviour.1
+  have h2 : Gen.GC.containsReprobesPacks = true := source_has_repaired_behaviour.2.1
+  split <;> assumption
+
+/-- The same against an arbitrary environment (e.g. `git repack -a -d` as another process): any sequence of file-system
+states, observed at the reader's steps, in which the object is always in a complete pack or loose, and neither a pack
+file nor its loose file is removed before the stable pack is complete (`Rely`). -/
+theorem reader_finds_persistent_object_any_environment (c : Cfg) (pstar : Name)
+    (hN : c.maxAttempts = Gen.GC.maxPackRescanAttempts) (hre : c.reprobe = true)
+    (tr : List (EPhase × FS)) (hrely : Rely c pstar tr)
+    (cache idxL dataL : List Name) (b : Bool)
+    (hdone : (run c (tr.map (·.2)) (RState.init cache idxL dataL)).phase = Phase.done b) : b = true :=
+  reader_never_misses c pstar (by rw [hN]; exact rescan_attempts_sufficient) hre tr hrely cache idxL dataL b hdone
+
+/-- Iteration (`list(store)` as the source does it now: pack scan, packs, loose listing, second pack scan, new packs,
+alternates) interleaved by ANY schedule with a repacker of the safe shape: every object of `prot` that exists at the
+start — packed or loose — and is in `pstar` is in the result, whatever the iterator's cache. -/
+theorem iteration_complete_during_repack (ids : Name → List Id) (alts : List Id) (x : Id) (pstar : Name)
+    (prot : List Id) (started : Bool) (prog : List Act)
+    (hprog : checkProgram pstar prot started started prog = true) (f0 : FS)
+    (hstart : started = true → f0.complete pstar = true) (hx : x ∈ ids pstar) (hprot : x ∈ prot)
+    (hex : (∃ p, f0.complete p = true ∧ x ∈ ids p) ∨ x ∈ f0.loose)
+    (cache idxL : List Name) (sched : List Bool)
+    (hdone : (iexec Gen.GC.iterRescansAfterLoose ids alts f0 prog (IState.init cache idxL) sched).2.2.phase = IPhase.done) :
+    x ∈ (iexec Gen.GC.iterRescansAfterLoose ids alts f0 prog (IState.init cache idxL) sched).2.2.acc := by
+  have h : Gen.GC.iterRescansAfterLoose = true := source_has_repaired_behaviour.2.2.1
+  rw [h] at hdone ⊢
+  exact iteration_complete ids alts x pstar prot started prog hprog f0 hstart hx hprot hex cache idxL sched hdone
+
+/-! ### the recorded programs of the real code have the safe shape -/
+
+/-- `repack()`: the consolidated pack is fully installed (data, then index) before any old pack file is removed and
+before the loose objects it contains are deleted, and it is never removed.  A reordering in dulwich changes the generated
+term and this stops compiling. -/
+theorem recorded_repack_order_safe :
+    checkProgram Gen.GC.repackNewPack Gen.GC.repackProtected false false (Gen.GC.repackProgram.map Act.ofCode) = true := by
+  decide
+
+theorem recorded_pack_loose_order_safe :
+    checkProgram Gen.GC.packLooseNewPack Gen.GC.packLooseProtected false false
+      (Gen.GC.packLooseProgram.map Act.ofCode) = true := by
+  decide
+
+theorem recorded_gc_order_safe :
+    checkProgram Gen.GC.gcNewPack Gen.GC.gcProtected false false (Gen.GC.gcProgram.map Act.ofCode) = true := by
+  decide
+
+/-- `repack_order_safe`: readers of any object that the real `repack()` keeps — packed before, or loose and moved into
+the new pack — survive it, whatever the schedule; the program is the one recorded from the source on this run. -/
+theorem repack_order_safe (f0 : FS) (readers : List (Cfg × RState))
+    (hreaders : ∀ cr ∈ readers, cr.1.maxAttempts = Gen.GC.maxPackRescanAttempts ∧
+        cr.1.reprobe = (if cr.1.needData then Gen.GC.getRawReprobesPacks else Gen.GC.containsReprobesPacks) ∧
+        cr.1.x ∈ cr.1.ids Gen.GC.repackNewPack ∧ cr.1.x ∈ Gen.GC.repackProtected ∧
+        ((∃ p, f0.complete p = true ∧ cr.1.x ∈ cr.1.ids p) ∨ cr.1.x ∈ f0.loose) ∧
+        (∃ cache idxL dataL, cr.2 = RState.init cache idxL dataL))
+    (sched : List (Option Nat)) :
+    ∀ cr ∈ (Sys.exec { fs := f0, prog := Gen.GC.repackProgram.map Act.ofCode, readers := readers } sched).readers,
+      ∀ b, cr.2.phase = Phase.done b → b = true :=
+  reader_finds_persistent_object _ _ false _ recorded_repack_order_safe f0 (by simp) readers hreaders sched
+
+/-! ### the race of §7-F12, before and after -/
 
 /-- the recorded program of the real `pack_loose_objects()` (two loose objects `1`, `2` go into the new pack) -/
 def packLooseProg : List Act := Gen.GC.packLooseProgram.map Act.ofCode
 
 def raceIds : Name → List Id := fun p => if p = Gen.GC.packLooseNewPack then [1, 2] else []
 
-/-- `store[1]` exactly as the code does it now (`reprobe` as found in the source) -/
 def raceCfg (reprobe : Bool) : Cfg :=
   { ids := raceIds, x := 1, needData := true, alts := [], maxAttempts := Gen.GC.maxPackRescanAttempts, reprobe := reprobe }
 
@@ -121,135 +229,91 @@ def raceStart (reprobe : Bool) : Sys :=
     readers := [(raceCfg reprobe, RState.init [] [] [])] }
 
 /-- the interleaving: the reader scans the (empty) pack directory; `pack_loose_objects` runs to completion
-(install pack, delete both loose files); the reader then probes the loose file, then the alternates. -/
+(install pack, delete both loose files); the reader then probes the loose file, then the alternates, … -/
 def raceSchedule : List (Option Nat) := [some 0, none, none, none, none, some 0, some 0, some 0, some 0, some 0, some 0]
 
-/-- F12: object `1` is readable in every intermediate state (loose first, then packed) and yet the lookup ends
-with "missing" — with the probe order and the missing re-probe read off the source by the translator. -/
-theorem loose_to_pack_race_counterexample :
-    Gen.GC.getRawReprobesPacks = false ∧
+/-- Regression witness (code before the series: no second look at the packs): object `1` is readable in every
+intermediate state (loose first, then packed) and yet the lookup ended with "missing". -/
+theorem loose_to_pack_race_old_code :
     (∀ k, k ≤ raceSchedule.length →
-        present raceIds ((raceStart Gen.GC.getRawReprobesPacks).exec (raceSchedule.take k)).fs 1 = true) ∧
-    ((raceStart Gen.GC.getRawReprobesPacks).exec raceSchedule).readers.map (fun cr => cr.2.phase) = [Phase.done false] := by
+        present raceIds ((raceStart false).exec (raceSchedule.take k)).fs 1 = true) ∧
+    ((raceStart false).exec raceSchedule).readers.map (fun cr => cr.2.phase) = [Phase.done false] := by
   decide
 
-/-- the proposed patch (one more look at the packs after the loose miss, as git does) closes this interleaving -/
-theorem loose_to_pack_race_fixed_by_reprobe :
-    ((raceStart true).exec raceSchedule).readers.map (fun cr => cr.2.phase) = [Phase.done true] := by
+/-- the same interleaving with the lookup as the source does it now: found (an instance of
+`reader_finds_persistent_object`, whose hypotheses it satisfies — non-vacuity) -/
+theorem loose_to_pack_race_now_found :
+    checkProgram Gen.GC.packLooseNewPack Gen.GC.packLooseProtected false false packLooseProg = true ∧
+    (1 ∈ raceIds Gen.GC.packLooseNewPack) ∧ (1 ∈ Gen.GC.packLooseProtected) ∧
+    ((raceStart Gen.GC.getRawReprobesPacks).exec raceSchedule).readers.map (fun cr => cr.2.phase) = [Phase.done true] := by
   decide
 
-/-! ### iteration skips a vanished pack without rescanning -/
+/-! ### iteration, before and after -/
 
 def iterIds : Name → List Id := fun p => if p = 2 then [1] else if p = 1 then [1, 2] else []
 
-/-- `list(store)` against the recorded `repack()` program restricted to one old pack `2 = {1}` and one loose object `2`:
-the reader lists the pack directory (sees pack 2), the repack installs pack `1 = {1,2}` and removes pack 2, the reader
-opens pack 2's index (gone: evicted, NOT rescanned), lists loose objects (none left).  Object 1 was in a visible pack
-throughout and is not in the result. -/
-theorem iter_skips_disappeared_pack_counterexample :
+/-- Regression witness (code before the series): `list(store)` against a `repack()` that replaces old pack `2 = {1}` and
+loose object `2` by pack `1 = {1,2}`: the reader lists the pack directory (sees pack 2), the repack runs, the reader opens
+pack 2's index (gone: evicted, not rescanned), lists loose objects (none left).  Object 1 was in a visible pack
+throughout, object 2 was loose then packed; the result was empty.  The current code returns both. -/
+theorem iter_during_repack_old_code :
     let f0 : FS := { idx := [2], data := [2], loose := [2] }
     let prog : List Act := [.installData 1, .installIdx 1, .delLoose 2, .removeData 2, .removeIdx 2]
-    let fEnd := prog.foldl FS.act f0
-    present iterIds f0 1 = true ∧ present iterIds fEnd 1 = true ∧
-    (irun iterIds [] [f0, fEnd, fEnd, fEnd, fEnd] (IState.init [] [])).phase = IPhase.done ∧
-    (irun iterIds [] [f0, fEnd, fEnd, fEnd, fEnd] (IState.init [] [])).acc = [] := by
+    let sched : List Bool := [false, true, true, true, true, true, false, false, false, false, false, false, false, false]
+    present iterIds f0 1 = true ∧ present iterIds (prog.foldl FS.act f0) 1 = true ∧
+    (iexec false iterIds [] f0 prog (IState.init [] []) sched).2.2.phase = IPhase.done ∧
+    (iexec false iterIds [] f0 prog (IState.init [] []) sched).2.2.acc = [] ∧
+    checkProgram 1 [2] false false prog = true ∧
+    (iexec Gen.GC.iterRescansAfterLoose iterIds [] f0 prog (IState.init [] []) sched).2.2.phase = IPhase.done ∧
+    (iexec Gen.GC.iterRescansAfterLoose iterIds [] f0 prog (IState.init [] []) sched).2.2.acc = [1, 2] := by
   decide
 
-/-! ### the retry bound is tight -/
+/-! ### what remains false: the retry bound -/
 
 def retryIds : Name → List Id := fun _ => [1]
 
-/-- Three successive repacks (packs 1 → 2 → 3 → 4, each new pack installed before the old one is removed, object 1 in a
-visible pack at every instant) defeat a lookup with `_MAX_PACK_RESCAN_ATTEMPTS` passes that starts from an empty cache. -/
+/-- KNOWN FINDING (not repaired): successive repacks (packs 1 → 2 → … → 6, each new pack installed before the old one is
+removed, object 1 in a visible pack at every instant) defeat a lookup that starts from an empty cache: each of the
+`_MAX_PACK_RESCAN_ATTEMPTS` passes of the first look at the packs, and then of the second one, meets a pack that the next
+repack has just removed. -/
 theorem retry_bound_counterexample :
     let c : Cfg := { ids := retryIds, x := 1, needData := true, alts := [], maxAttempts := Gen.GC.maxPackRescanAttempts,
-                     reprobe := false }
+                     reprobe := Gen.GC.getRawReprobesPacks }
     let f (a b : Name) : FS := { idx := [a, b], data := [a, b], loose := [] }
     let g (a : Name) : FS := { idx := [a], data := [a], loose := [] }
-    -- scan (sees 1) | 1 gone (2 is there) | rescan sees 2 | 2 gone (3 there) | rescan sees 3 | 3 gone (4 there) | rescan | loose | alts
-    let tr : List FS := [g 1, g 2, g 2, g 3, g 3, g 4, g 4, g 4, g 4]
-    (∀ fs ∈ [g 1, f 1 2, g 2, f 2 3, g 3, f 3 4, g 4], present retryIds fs 1 = true) ∧
+    -- scan (sees 1) | 1 gone | rescan sees 2 | 2 gone | rescan sees 3, passes used up | loose | alts, start over with [3]
+    -- | 3 gone | rescan sees 4 | 4 gone | rescan sees 5 | 5 gone | rescan, passes used up
+    let tr : List FS := [g 1, g 2, g 2, g 3, g 3, g 3, g 3, g 4, g 4, g 5, g 5, g 6, g 6]
+    (∀ fs ∈ [g 1, f 1 2, g 2, f 2 3, g 3, f 3 4, g 4, f 4 5, g 5, f 5 6, g 6], present retryIds fs 1 = true) ∧
     (run c tr (RState.init [] [] [])).phase = Phase.done false := by
   decide
 
-/-- with one pass fewer even a single repack (from an empty cache) is enough: the bound in the source is needed -/
-theorem two_attempts_insufficient_counterexample :
+/-- Regression witness: without the second look, 2 passes were not enough even against a single repack (the bound in the
+source is needed) -/
+theorem two_attempts_insufficient_old_code :
     let c : Cfg := { ids := retryIds, x := 1, needData := true, alts := [], maxAttempts := 2, reprobe := false }
     let g (a : Name) : FS := { idx := [a], data := [a], loose := [] }
     (run c [g 1, g 2, g 2, g 2, g 2] (RState.init [] [] [])).phase = Phase.done false := by
   decide
 
-/-! ### the general theorems -/
-
-/-- the retry bound found in the source is enough for the theorems below (and `two_attempts_insufficient_counterexample`
-shows that 2 would not be) -/
-theorem rescan_attempts_sufficient : 3 ≤ Gen.GC.maxPackRescanAttempts := by decide
-
-/-- For every interleaving (any schedule) of ONE repacker whose program has the safe shape (`checkProgram`: the new pack
-`pstar` is installed — data, then index — before any pack file is removed, and is never removed) with ANY number of
-readers, each doing `store[x]` or `x in store` from any cache state (empty, stale, already loaded) for an object that is
-in a complete pack at the start and in `pstar`: no reader ever reports "missing".  The number of passes is the constant
-from the source. -/
-theorem reader_finds_persistent_object (pstar : Name) (prog : List Act)
-    (hprog : checkProgram pstar false false prog = true) (f0 : FS) (readers : List (Cfg × RState))
-    (hreaders : ∀ cr ∈ readers, cr.1.maxAttempts = Gen.GC.maxPackRescanAttempts ∧ cr.1.x ∈ cr.1.ids pstar ∧
-        (∃ p, f0.complete p = true ∧ cr.1.x ∈ cr.1.ids p) ∧
-        (∃ cache idxL dataL, cr.2 = RState.init cache idxL dataL))
-    (sched : List (Option Nat)) :
-    ∀ cr ∈ (Sys.exec { fs := f0, prog := prog, readers := readers } sched).readers,
-      ∀ b, cr.2.phase = Phase.done b → b = true := by
-  apply sys_readers_never_miss pstar prog hprog f0 readers
-  intro cr hcr
-  obtain ⟨hN, h⟩ := hreaders cr hcr
-  exact ⟨by rw [hN]; exact rescan_attempts_sufficient, h⟩
-
-/-- The same against an arbitrary environment (e.g. `git repack -a -d` as another process): any sequence of file-system
-states, observed at the reader's steps, in which the object is always in a complete pack and the "no removal before the
-stable pack is complete" discipline holds (`Rely`). -/
-theorem reader_finds_persistent_object_any_environment (c : Cfg) (pstar : Name)
-    (hN : c.maxAttempts = Gen.GC.maxPackRescanAttempts) (tr : List (EPhase × FS)) (hrely : Rely c pstar tr)
-    (cache idxL dataL : List Name) (b : Bool)
-    (hdone : (run c (tr.map (·.2)) (RState.init cache idxL dataL)).phase = Phase.done b) : b = true :=
-  reader_never_misses c pstar (by rw [hN]; exact rescan_attempts_sufficient) tr hrely cache idxL dataL b hdone
-
-/-! ### the recorded programs of the real code have the safe shape -/
-
-/-- `repack()`: the consolidated pack is fully installed (data, then index) before any old pack file is removed, and it
-is never removed.  A reordering in dulwich changes the generated term and this stops compiling. -/
-theorem recorded_repack_order_safe :
-    checkProgram Gen.GC.repackNewPack false false (Gen.GC.repackProgram.map Act.ofCode) = true := by decide
-
-theorem recorded_pack_loose_order_safe :
-    checkProgram Gen.GC.packLooseNewPack false false (Gen.GC.packLooseProgram.map Act.ofCode) = true := by decide
-
-theorem recorded_gc_order_safe :
-    checkProgram Gen.GC.gcNewPack false false (Gen.GC.gcProgram.map Act.ofCode) = true := by decide
-
-/-- `repack_order_safe`: readers of any object that is packed before the real `repack()` starts survive it, whatever the
-schedule — the program is the one recorded from the source on this run. -/
-theorem repack_order_safe (f0 : FS) (readers : List (Cfg × RState))
-    (hreaders : ∀ cr ∈ readers, cr.1.maxAttempts = Gen.GC.maxPackRescanAttempts ∧
-        cr.1.x ∈ cr.1.ids Gen.GC.repackNewPack ∧ (∃ p, f0.complete p = true ∧ cr.1.x ∈ cr.1.ids p) ∧
-        (∃ cache idxL dataL, cr.2 = RState.init cache idxL dataL))
-    (sched : List (Option Nat)) :
-    ∀ cr ∈ (Sys.exec { fs := f0, prog := Gen.GC.repackProgram.map Act.ofCode, readers := readers } sched).readers,
-      ∀ b, cr.2.phase = Phase.done b → b = true :=
-  reader_finds_persistent_object _ _ recorded_repack_order_safe f0 readers hreaders sched
-
 /-- non-vacuity: a concrete instance of all hypotheses of `repack_order_safe` (object 5 in old pack 2 and in the new
-pack 1; one cold `get_raw` reader and one `__contains__` reader with a stale cache), and a schedule on which both
-lookups finish — with "found". -/
+pack 1, object 7 loose and in the new pack; one cold `get_raw` reader of 5, one `__contains__` reader of 7 with a stale
+cache), and a schedule on which both lookups finish — with "found". -/
 example :
-    let ids : Name → List Id := fun p => if p = 1 then [5, 6, 7] else if p = 2 then [5] else if p = 3 then [6] else []
-    let c1 : Cfg := { ids := ids, x := 5, needData := true, alts := [], maxAttempts := Gen.GC.maxPackRescanAttempts, reprobe := false }
-    let c2 : Cfg := { c1 with needData := false }
-    let f0 : FS := { idx := [2, 3], data := [3, 2], loose := [7] }
+    let ids : Name → List Id := fun p => if p = 1 then [5, 6, 7, 1, 2] else if p = 2 then [5] else if p = 3 then [6] else []
+    let c1 : Cfg := { ids := ids, x := 5, needData := true, alts := [], maxAttempts := Gen.GC.maxPackRescanAttempts,
+                      reprobe := Gen.GC.getRawReprobesPacks }
+    let c2 : Cfg := { ids := ids, x := 2, needData := false, alts := [], maxAttempts := Gen.GC.maxPackRescanAttempts,
+                      reprobe := Gen.GC.containsReprobesPacks }
+    let f0 : FS := { idx := [2, 3], data := [3, 2], loose := [1, 2] }
     let readers := [(c1, RState.init [] [] []), (c2, RState.init [9, 2] [] [])]
-    checkProgram Gen.GC.repackNewPack false false (Gen.GC.repackProgram.map Act.ofCode) = true ∧
-    f0.complete 2 = true ∧ (5 ∈ ids 2) ∧ (5 ∈ ids Gen.GC.repackNewPack) ∧
+    checkProgram Gen.GC.repackNewPack Gen.GC.repackProtected false false (Gen.GC.repackProgram.map Act.ofCode) = true ∧
+    f0.complete 2 = true ∧ (5 ∈ ids 2) ∧ (5 ∈ ids Gen.GC.repackNewPack) ∧ (2 ∈ f0.loose) ∧ (2 ∈ ids Gen.GC.repackNewPack) ∧
+    (2 ∈ Gen.GC.repackProtected) ∧
     ((Sys.exec { fs := f0, prog := Gen.GC.repackProgram.map Act.ofCode, readers := readers }
-        [some 0, none, none, some 1, none, none, none, none, none, none, some 0, some 0, some 0, some 0, some 0,
-         some 1, some 1, some 1, some 1, some 1]).readers.map (fun cr => cr.2.phase)) = [Phase.done true, Phase.done true] := by
+        [some 0, some 1, some 1, some 1, none, none, none, none, none, none, none, none, some 0, some 0, some 0, some 0,
+         some 0, some 1, some 1, some 1, some 1, some 1, some 1, some 1]).readers.map (fun cr => cr.2.phase)) =
+      [Phase.done true, Phase.done true] := by
   decide
 
 end Dulwich.Props.C10
